@@ -647,3 +647,14 @@ add("C13", "column restarts after the last LF only", "sqlglot/tokenizer_core.py"
 add("C13", "benign: count terms reordered", "sqlglot/tokenizer_core.py",
     "                    sql.count(\"\\n\", pos, end)\n                    + sql.count(\"\\r\", pos, end)\n",
     "                    sql.count(\"\\r\", pos, end)\n                    + sql.count(\"\\n\", pos, end)\n", "silent", 0)
+
+add("C15", "revert: FROM table of eliminate_join_marks taken from a set", "sqlglot/transforms.py",
+    "            new_from_name = next(name for name in old_joins if name in only_old_joins)\n",
+    "            new_from_name = list[str](only_old_joins)[0]\n", "C15.a")
+add("C15", "revert: SET_OP_MODIFIERS as a set display", P,
+    "    SET_OP_MODIFIERS: t.ClassVar = (\"order\", \"limit\", \"offset\")",
+    "    SET_OP_MODIFIERS: t.ClassVar = {\"order\", \"limit\", \"offset\"}", "C15.a")
+add("C15", "revert: helper generator copies its parent's table without pruning", "sqlglot/generators/athena.py",
+    "        if k not in generator.ALL_JSON_PATH_PARTS - TrinoGenerator.SUPPORTED_JSON_PATH_PARTS\n", "", "C15.f")
+add("C15", "benign: iterate the modifiers in sorted order", P,
+    "                for arg in self.SET_OP_MODIFIERS:", "                for arg in sorted(self.SET_OP_MODIFIERS):", "silent", 0)
